@@ -3,6 +3,11 @@
 package agent
 
 import (
+	"errors"
+	"io"
+	"net"
+
+	"github.com/postalsys/muti-metroo/internal/routing"
 	"github.com/postalsys/muti-metroo/internal/crypto"
 	"github.com/postalsys/muti-metroo/internal/identity"
 	"github.com/postalsys/muti-metroo/internal/peer"
@@ -57,4 +62,15 @@ func VerifC04Process(a *Agent, peerID identity.AgentID, f *protocol.Frame) { a.p
 // VerifC04FileOpenUp drives the exit side of a file UPLOAD stream open.
 func VerifC04FileOpenUp(a *Agent, peerID identity.AgentID, streamID, requestID uint64, pub [crypto.KeySize]byte) {
 	a.handleFileUploadStreamOpen(peerID, streamID, requestID, pub)
+}
+
+// VerifC04IngressSetup gives a (never started) agent one capturing peer and a default route through it,
+// so that its SOCKS5-UDP ingress path opens its associations towards that peer.
+func VerifC04IngressSetup(a *Agent, remote identity.AgentID, w io.Writer) error {
+	peer.VerifC04CapturePeer(a.peerMgr, a.id, remote, w)
+	_, all, _ := net.ParseCIDR("0.0.0.0/0")
+	if got := a.routeMgr.ProcessRouteAdvertise(remote, remote, 1, []routing.RouteEntry{{Network: all, Metric: 1}}, []identity.AgentID{remote}, nil); len(got) == 0 {
+		return errors.New("verif c04: route not accepted")
+	}
+	return nil
 }
